@@ -2,11 +2,17 @@
 correspondence harness.
 
 Real code exercised (in-process, xmlsec1 replaced by the stand-in):
-  Saml2Client.parse_authn_request_response           (signed Response / signed Assertion, HTTP-POST)
-  Server.parse_authn_request                         (AuthnRequest, HTTP-POST enveloped; HTTP-Redirect detached)
-  Entity.parse_logout_request (on the SP)            (LogoutRequest, HTTP-POST and SOAP)
-i.e. SecurityContext._check_signature, MetaData.certs, CryptoBackendXmlSec1.validate_signature,
-Request._do_redirect_sig_check + verify_redirect_signature.
+  Saml2Client.parse_authn_request_response   signed Response; signed Assertion plain / encrypted; an encrypted
+                                             assertion next to a plain one of another issuer; an advice assertion
+                                             (encrypted / plain) of another issuer inside a signed assertion
+  Saml2Client.parse_logout_request_response  LogoutResponse, HTTP-POST
+  Entity.parse_logout_request (on the SP)    LogoutRequest, HTTP-POST and SOAP
+  Server.parse_authn_request                 AuthnRequest, HTTP-POST enveloped; HTTP-Redirect detached
+  Server.parse_logout_request                LogoutRequest, HTTP-Redirect detached
+i.e. SecurityContext._check_signature (with and without its issuer= argument), MetaData.certs,
+CryptoBackendXmlSec1.validate_signature, Request._do_redirect_sig_check + verify_redirect_signature +
+extract_rsa_key_from_x509_cert + RSASigner.verify.  Metadata certificates are RSA, EC, Ed25519, DSA or malformed;
+signers include the receiver's own key.
 
 The model's input (metadata shape, claimed issuer, signing key, embedded KeyInfo, option) is the
 harness's own abstract case; the metadata document is rendered by an independent writer below.
@@ -36,12 +42,15 @@ DRIVER = "Drivers/C03.lean"
 CORRESPONDENCE = ("Drivers/C03.lean (Keys.accept) vs parse_authn_request_response / Server.parse_authn_request / "
                   "parse_logout_request with the xmlsec1 stand-in")
 EXHAUSTIVE = True
-PARALLEL = False
+PARALLEL = True
 RULE = ("complete product 6 signer keys x 3 claimed issuers x 4 KeyInfo shapes x only_use_keys_in_metadata "
-        "{True, False} x 6 message kinds (Response, Assertion, AuthnRequest/POST, LogoutRequest/POST, "
-        "LogoutRequest/SOAP, AuthnRequest/Redirect detached) = 864 cells, every cell run against the real code; "
+        "{True, False} x 11 message kinds (Response, Assertion, encrypted Assertion, encrypted assertion next to "
+        "another issuer's plain one, encrypted advice assertion inside another issuer's assertion, LogoutResponse/POST, "
+        "AuthnRequest/POST, LogoutRequest/POST, LogoutRequest/SOAP, AuthnRequest/Redirect detached, "
+        "LogoutRequest/Redirect detached) = 1584 cells, every cell run against the real code; "
         "plus the default-configuration column (option not set), corrupted signatures, absent/padded issuer, "
-        "multi-certificate KeyInfo and random metadata shapes (several roles, use absent/signing/encryption, "
+        "multi-certificate KeyInfo, metadata certificate kinds {EC, Ed25519, DSA, malformed} x use x signer incl. the "
+        "receiver's own key, directed and random metadata shapes (several roles, use absent/signing/encryption, "
         "several certificates, key descriptors without X509Data / X509Data without certificate, no metadata configured); "
         "non-trivial = a verifier was actually handed a certificate or the case was accepted; "
         "distinct = distinct case JSON")
@@ -70,8 +79,19 @@ GEN = [_gen_defaults]
 
 KEYS = ["idp_sign", "idp_sign2", "idp_enc", "member2", "sp", "attacker"]
 ALLKEYS = KEYS + ["idp2", "sp2", "sp_enc1", "sp_enc2"]
-KINDS = ["response", "assertion", "authn_post", "logout_post", "logout_soap", "redirect"]
-SP_RECEIVES = ("response", "assertion", "logout_post", "logout_soap")
+# every kind is one signed item `m` (issuer, signer, keyinfo of the case) travelling in some way; the nested
+# kinds additionally have a first item `first` (default: issued by the other member M, signed with member2)
+KINDS = ["response", "assertion", "enc_assertion", "plain_plus_enc", "advice_enc", "logout_resp_post",
+         "authn_post", "logout_post", "logout_soap", "redirect", "logout_redirect"]
+NESTED = ("plain_plus_enc", "advice_enc", "advice_plain")   # advice_plain: only `first` is ever verified
+ASSERTION_LIKE = ("assertion", "enc_assertion") + NESTED
+SP_RECEIVES = ("response", "logout_resp_post", "logout_post", "logout_soap") + ASSERTION_LIKE
+DETACHED = ("redirect", "logout_redirect")
+OWN = "sp"   # the receiver's own key in every configuration below
+
+# certificates that are not RSA certificates: kind as the model sees it
+CERT_KINDS = {"c15_ec256": "other", "c15_ed25519": "other", "c15_dsa2048": "other", "garbage": "malformed"}
+GARBAGE_B64 = base64.b64encode(b"this is not a certificate, only thirty-eight bytes").decode()
 
 # entity ids of the fixed federation; the *sender* is an IdP when the SP receives and an SP when the IdP receives
 E_IDP, M_IDP, U_IDP = S.IDP_ID, S.IDP2_ID, "https://unknown.verif.example/idp"
@@ -87,10 +107,14 @@ _rx = {"handed": []}
 # ------------------------------------------------------------------ instrumentation
 
 
+def cert_text(name):
+    return GARBAGE_B64 if name == "garbage" else S.cert_b64(name)
+
+
 def _cert_name_from_b64(b64):
     b64 = "".join(b64.split())
-    for n in ALLKEYS:
-        if S.cert_b64(n) == b64:
+    for n in ALLKEYS + list(CERT_KINDS):
+        if cert_text(n) == b64:
             return n
     return "?"
 
@@ -177,8 +201,8 @@ def _keydescriptor(kd):
     use = ' use="%s"' % kd["use"] if kd.get("use") else ""
     if not kd.get("certs"):  # None or []: a KeyInfo without any X509Data
         inner = "<ds:KeyName>key-without-certificate</ds:KeyName>"
-    else:  # a None entry: an X509Data that carries no certificate
-        inner = "".join("<ds:X509Data><ds:X509Certificate>%s</ds:X509Certificate></ds:X509Data>" % S.cert_b64(c)
+    else:  # a None entry: an X509Data that carries no certificate; "": an EMPTY X509Certificate element
+        inner = "".join("<ds:X509Data><ds:X509Certificate>%s</ds:X509Certificate></ds:X509Data>" % (cert_text(c) if c else "")
                         if c is not None else
                         "<ds:X509Data><ds:X509SubjectName>CN=no-certificate</ds:X509SubjectName></ds:X509Data>"
                         for c in kd["certs"])
@@ -229,15 +253,45 @@ def keyinfo_shapes(signer):
             ("rsa-keyvalue", {"certs": [], "rsa": signer})]
 
 
-def table_cases(only_values):
-    for kind in KINDS:
-        role = "idpsso" if kind in SP_RECEIVES else "spsso"
-        md = fixed_md(role)
+NO_KI = {"certs": [], "rsa": None}
+
+
+def role_for(kind):
+    return "idpsso" if kind in SP_RECEIVES else "spsso"
+
+
+def mk(kind, md, only, issuer, signer, ki, first=None):
+    """one case; certificate kinds of the non-RSA certificates the metadata mentions travel with the case"""
+    c = {"kind": kind, "md": md, "only_md": only, "issuer": issuer, "signer": signer, "keyinfo": ki}
+    kinds = {n: CERT_KINDS[n] for e in md["entities"] for r in e["roles"] for k in r["keys"]
+             for n in (k["certs"] or []) if n and n in CERT_KINDS}
+    if kinds:
+        c["cert_kinds"] = kinds
+    if kind in NESTED:
+        _, m_id, _ = ids_for(kind)
+        c["first"] = first or {"issuer": m_id, "signer": "member2", "keyinfo": NO_KI}
+    return c
+
+
+def with_member(md, kind):
+    """nested kinds: the first item is issued by member M, so M must be in the metadata for anything to happen"""
+    if kind not in NESTED or not md["configured"]:
+        return md
+    _, m_id, _ = ids_for(kind)
+    if any(e["id"] == m_id for e in md["entities"]):
+        return md
+    return {"configured": True, "entities": md["entities"] + [
+        {"id": m_id, "roles": [{"kind": role_for(kind), "keys": [kd("signing", "member2")]}]}]}
+
+
+def table_cases(only_values, kinds=None):
+    for kind in kinds or KINDS:
+        md = fixed_md(role_for(kind))
         for issuer in ids_for(kind):
             for signer in KEYS:
                 for _, ki in keyinfo_shapes(signer):
                     for only in only_values:
-                        yield {"kind": kind, "md": md, "only_md": only, "issuer": issuer, "signer": signer, "keyinfo": ki}
+                        yield mk(kind, md, only, issuer, signer, ki)
 
 
 def gen_role(rng, kinds):
@@ -247,15 +301,16 @@ def gen_role(rng, kinds):
         if rng.random() < 0.07:
             keys.append({"use": use, "certs": None})
         else:
-            cs = [rng.choice(KEYS[:4] + ["idp2", "sp2"]) for _ in range(rng.choice([1, 1, 1, 2]))]
+            pool = KEYS[:4] + ["idp2", "sp2"] + (list(CERT_KINDS) if rng.random() < 0.15 else [])
+            cs = [rng.choice(pool) for _ in range(rng.choice([1, 1, 1, 2]))]
             if rng.random() < 0.06:
-                cs.insert(rng.randrange(len(cs) + 1), None)
+                cs.insert(rng.randrange(len(cs) + 1), rng.choice([None, ""]))
             keys.append({"use": use, "certs": cs})
     return {"kind": rng.choice(kinds), "keys": keys}
 
 
 def gen_md(rng, role):
-    """random metadata shape: 1-3 entities, 1-3 role descriptors each (the sender's role first)"""
+    """random metadata shape: 1-2 entities, 1-3 role descriptors each"""
     e_id, m_id, _ = (E_IDP, M_IDP, U_IDP) if role == "idpsso" else (E_SP, M_SP, U_SP)
     other = ["idpsso", "spsso", "authn_authority", "attribute_authority", "pdp"]
     ents = []
@@ -270,25 +325,28 @@ def gen_md(rng, role):
 
 def random_cases(rng, n_md, per):
     for _ in range(n_md):
-        kind = rng.choice(KINDS)
-        role = "idpsso" if kind in SP_RECEIVES else "spsso"
+        kind = rng.choice(KINDS + ["advice_plain"])
+        role = role_for(kind)
         if rng.random() < 0.06:
             md = {"configured": False, "entities": []}
         else:
             md = gen_md(rng, role)
-        published = sorted({c for e in md["entities"] for r in e["roles"] for k in r["keys"] for c in (k["certs"] or []) if c})
+            if rng.random() < 0.7:
+                md = with_member(md, kind)
+        published = sorted({c for e in md["entities"] for r in e["roles"] for k in r["keys"]
+                            for c in (k["certs"] or []) if c and c not in CERT_KINDS})
         e_id, m_id, u_id = ids_for(kind)
         for _ in range(per):
             c = rng.randrange(10)
             issuer = e_id if c < 6 else m_id if c < 8 else u_id if c < 9 else rng.choice([None, " " + e_id + "\n", e_id + "/", e_id.upper()])
-            if kind in ("assertion",) and issuer is None:
+            if kind in ASSERTION_LIKE and issuer is None:
                 issuer = e_id  # saml:Assertion without Issuer is not schema-valid: rejected before any key question
             c = rng.randrange(10)
             signer = rng.choice(published) if (published and c < 5) else rng.choice(KEYS) if c < 9 else None
             c = rng.randrange(10)
             s = signer or "attacker"
             if c < 3:
-                ki = {"certs": [], "rsa": None}
+                ki = NO_KI
             elif c < 6:
                 ki = {"certs": [s], "rsa": None}
             elif c < 7:
@@ -300,70 +358,148 @@ def random_cases(rng, n_md, per):
             else:
                 ki = {"certs": [rng.choice(KEYS)], "rsa": s}
             only = rng.choice([True, False, False, None])
-            yield {"kind": kind, "md": md, "only_md": only, "issuer": issuer, "signer": signer, "keyinfo": ki}
+            first = None
+            if kind in NESTED and rng.random() < 0.3:
+                fs = rng.choice(["member2", "member2", "attacker", "idp_sign", OWN])
+                first = {"issuer": rng.choice([m_id, m_id, e_id]), "signer": fs,
+                         "keyinfo": rng.choice([NO_KI, {"certs": [fs], "rsa": None}])}
+            yield mk(kind, md, only, issuer, signer, ki, first)
+
+
+def extras(kind, quick):
+    """adversarial inputs on the fixed federation"""
+    md = fixed_md(role_for(kind))
+    e_id, m_id, u_id = ids_for(kind)
+    for only in (True, False):
+        # signature value that verifies under no key
+        for ki in (NO_KI, {"certs": ["idp_sign"], "rsa": None}, {"certs": ["attacker"], "rsa": None})[:2 if quick else 3]:
+            yield mk(kind, md, only, e_id, None, ki)
+            yield mk(kind, md, only, u_id, None, ki)
+        # victim certificate first, attacker's second (and the other way round), certificate + RSAKeyValue
+        for ki in ({"certs": ["idp_sign", "attacker"], "rsa": None}, {"certs": ["attacker", "idp_sign"], "rsa": None},
+                   {"certs": ["idp_sign"], "rsa": "attacker"}):
+            for iss in (e_id, u_id):
+                yield mk(kind, md, only, iss, "attacker", ki)
+        # issuer look-alikes / padded / absent
+        for iss in (" " + e_id + " ", e_id + "/", e_id.upper(), None):
+            if iss is None and kind in ASSERTION_LIKE:
+                continue
+            for signer in ("idp_sign", "attacker"):
+                for ki in ({"certs": [signer], "rsa": None}, NO_KI, {"certs": ["member2", signer], "rsa": None})[:1 if (quick and iss is not None) else 3]:
+                    yield mk(kind, md, only, iss, signer, ki)
+        # no metadata configured at all
+        for signer in ("idp_sign", "attacker"):
+            yield mk(kind, {"configured": False, "entities": []}, only, e_id, signer, {"certs": [signer], "rsa": None})
+    if kind in NESTED:
+        # the first item itself: wrong key, the receiver's own key, roles swapped (first from E, item from M)
+        for only in (True, False):
+            for fs in ("attacker", OWN, "idp_sign"):
+                yield mk(kind, md, only, e_id, "idp_sign", NO_KI, {"issuer": m_id, "signer": fs, "keyinfo": {"certs": [fs], "rsa": None}})
+            for signer in ("member2", "idp_sign", "attacker"):
+                yield mk(kind, md, only, m_id, signer, NO_KI, {"issuer": e_id, "signer": "idp_sign2", "keyinfo": NO_KI})
+                yield mk(kind, md, only, u_id, signer, {"certs": [signer], "rsa": None}, {"issuer": e_id, "signer": "idp_sign", "keyinfo": NO_KI})
+
+
+def directed(kind, quick):
+    """directed metadata shapes: a signing key descriptor without X509Data (contributes no certificate; the input
+    class of the repaired defect C03/keyless-keydescriptor-fallback), an X509Data without certificate, a
+    certificate-less descriptor only, a certificate-less descriptor in another role or with use="encryption", an
+    entity with an encryption key only, an entity without any key, keys spread over several role descriptors"""
+    role = role_for(kind)
+    e_id, m_id, u_id = ids_for(kind)
+    shapes = [
+        [{"kind": role, "keys": [{"use": "signing", "certs": None}, kd("signing", "idp_sign"), kd("encryption", "idp_enc")]}],
+        [{"kind": role, "keys": [{"use": "signing", "certs": [None]}, kd("signing", None, "idp_sign")]}],
+        [{"kind": role, "keys": [kd("signing", ""), kd("signing", "idp_sign")]}],   # repaired defect C03/empty-certificate-fallback
+        [{"kind": role, "keys": [kd(None, "idp_sign2", "")]}],
+        [{"kind": role, "keys": [{"use": None, "certs": None}]}],
+        [{"kind": role, "keys": [kd(None, "idp_sign")]}, {"kind": "attribute_authority", "keys": [{"use": None, "certs": None}]}],
+        [{"kind": role, "keys": [{"use": "encryption", "certs": None}, kd("signing", "idp_sign")]}],
+        [{"kind": role, "keys": [kd("encryption", "idp_enc")]}],
+        [{"kind": role, "keys": []}],
+        [{"kind": "pdp", "keys": [kd(None, "idp_sign2")]}, {"kind": role, "keys": [kd("signing", "idp_sign", "idp_enc")]},
+         {"kind": "authn_authority", "keys": [kd("encryption", "member2")]}],
+    ]
+    signers = ("idp_sign", "idp_enc", "attacker") if quick else ("idp_sign", "idp_sign2", "idp_enc", "attacker")
+    for roles in shapes:
+        md = with_member({"configured": True, "entities": [{"id": e_id, "roles": roles}]}, kind)
+        for only in (True, False, None):
+            for signer in signers:
+                for ki in (NO_KI, {"certs": [signer], "rsa": None}, {"certs": ["member2", signer], "rsa": None})[:2 if quick else 3]:
+                    yield mk(kind, md, only, e_id, signer, ki)
+
+
+def cert_kind_cases(kind, quick):
+    """metadata certificates that are not RSA certificates (EC, Ed25519, DSA, malformed) x use x signer, where the
+    signers include the receiver's own key; alone and followed / preceded by an RSA certificate"""
+    role = role_for(kind)
+    e_id, m_id, u_id = ids_for(kind)
+    signers = ("idp_sign", "member2", OWN, "attacker")
+    for x in list(CERT_KINDS) + [""]:   # "": an empty X509Certificate element (contributes none)
+        alone = with_member({"configured": True, "entities": [{"id": e_id, "roles": [{"kind": role, "keys": [kd("signing", x)]}]}]}, kind)
+        before = with_member({"configured": True, "entities": [{"id": e_id, "roles": [{"kind": role, "keys": [kd("signing", x), kd("signing", "idp_sign")]}]}]}, kind)
+        after = with_member({"configured": True, "entities": [{"id": e_id, "roles": [{"kind": role, "keys": [kd("signing", "idp_sign2", x)]}]}]}, kind)
+        for signer in signers:
+            yield mk(kind, alone, True, e_id, signer, NO_KI)
+        for signer in ("idp_sign", OWN):
+            yield mk(kind, before, True, e_id, signer, NO_KI)
+            yield mk(kind, after, True, e_id, "idp_sign2" if signer == "idp_sign" else signer, NO_KI)
+        if True:
+            for use in (None, "encryption"):
+                mdu = with_member({"configured": True, "entities": [{"id": e_id, "roles": [{"kind": role, "keys": [kd(use, x)]}]}]}, kind)
+                for signer in (OWN, "attacker"):
+                    yield mk(kind, mdu, False, e_id, signer, {"certs": [signer], "rsa": None})
+        if not quick:
+            for only in (True, False, None):
+                for signer in signers + ("idp_sign2",):
+                    for ki in (NO_KI, {"certs": [signer], "rsa": None}):
+                        for md in (alone, before, after):
+                            yield mk(kind, md, only, e_id, signer, ki)
+
+
+def reload_cases(kind):
+    """the receiver starts with two metadata sources and then reloads with a configuration that lists only the
+    first (Entity.reload_metadata): the entities of the dropped source `stale` must stop vouching for keys"""
+    role = role_for(kind)
+    e_id, m_id, u_id = ids_for(kind)
+    md = {"configured": True, "entities": [{"id": e_id, "roles": [{"kind": role, "keys": [kd("signing", "idp_sign")]}]}]}
+    stale = {"configured": True, "entities": [{"id": m_id, "roles": [{"kind": role, "keys": [kd("signing", "member2")]}]}]}
+    first = {"issuer": e_id, "signer": "idp_sign", "keyinfo": NO_KI}
+    for only in (True, False, None):
+        for issuer, signer, ki in ((m_id, "member2", NO_KI), (m_id, "member2", {"certs": ["member2"], "rsa": None}),
+                                   (e_id, "member2", NO_KI), (e_id, "idp_sign", NO_KI)):
+            c = mk(kind, md, only, issuer, signer, ki, first)
+            c["stale"] = stale
+            yield c
 
 
 def gen_cases(rng, tier):
-    # 1. the quantifier's product, completely (both tiers)
+    quick = tier == "quick"
+    # 1. the quantifier's product, completely (both tiers), for every kind
     for c in table_cases([True, False]):
         yield c
     # 2. the default-configuration column: option not set at all
     for c in table_cases([None]):
-        if c["keyinfo"]["certs"] == [c["signer"]] or tier == "thorough":
+        if c["keyinfo"]["certs"] == [c["signer"]] or not quick:
             yield c
     # 3. adversarial extras on the fixed federation
+    for kind in KINDS + ["advice_plain"]:
+        for c in extras(kind, quick):
+            yield c
+    # 4. certificate kinds in metadata
     for kind in KINDS:
-        role = "idpsso" if kind in SP_RECEIVES else "spsso"
-        md = fixed_md(role)
-        e_id, m_id, u_id = ids_for(kind)
-        for only in (True, False):
-            # signature value that verifies under no key
-            for ki in ({"certs": [], "rsa": None}, {"certs": ["idp_sign"], "rsa": None}, {"certs": ["attacker"], "rsa": None}):
-                yield {"kind": kind, "md": md, "only_md": only, "issuer": e_id, "signer": None, "keyinfo": ki}
-                yield {"kind": kind, "md": md, "only_md": only, "issuer": u_id, "signer": None, "keyinfo": ki}
-            # victim certificate first, attacker's second (and the other way round), certificate + RSAKeyValue
-            for ki in ({"certs": ["idp_sign", "attacker"], "rsa": None}, {"certs": ["attacker", "idp_sign"], "rsa": None},
-                       {"certs": ["idp_sign"], "rsa": "attacker"}):
-                for iss in (e_id, u_id):
-                    yield {"kind": kind, "md": md, "only_md": only, "issuer": iss, "signer": "attacker", "keyinfo": ki}
-            # issuer look-alikes / padded / absent
-            for iss in (" " + e_id + " ", e_id + "/", e_id.upper(), None):
-                if iss is None and kind == "assertion":
-                    continue
-                for signer in ("idp_sign", "attacker"):
-                    for ki in ({"certs": [signer], "rsa": None}, {"certs": [], "rsa": None}, {"certs": ["member2", signer], "rsa": None}):
-                        yield {"kind": kind, "md": md, "only_md": only, "issuer": iss, "signer": signer, "keyinfo": ki}
-            # no metadata configured at all
-            for signer in ("idp_sign", "attacker"):
-                yield {"kind": kind, "md": {"configured": False, "entities": []}, "only_md": only, "issuer": e_id,
-                       "signer": signer, "keyinfo": {"certs": [signer], "rsa": None}}
-    # 4. directed metadata shapes: a signing key descriptor without X509Data (contributes no certificate; the
-    #    input class of the repaired defect C03/keyless-keydescriptor-fallback), an X509Data without
-    #    certificate, a certificate-less descriptor only, a certificate-less descriptor in another role or with
-    #    use="encryption", an entity with an encryption key only, an entity without any key, keys spread over
-    #    several role descriptors of the entity
+        for c in cert_kind_cases(kind, quick):
+            yield c
+    # 5. directed metadata shapes
     for kind in KINDS:
-        role = "idpsso" if kind in SP_RECEIVES else "spsso"
-        e_id, m_id, u_id = ids_for(kind)
-        shapes = [
-            [{"kind": role, "keys": [{"use": "signing", "certs": None}, kd("signing", "idp_sign"), kd("encryption", "idp_enc")]}],
-            [{"kind": role, "keys": [{"use": "signing", "certs": [None]}, kd("signing", None, "idp_sign")]}],
-            [{"kind": role, "keys": [{"use": None, "certs": None}]}],
-            [{"kind": role, "keys": [kd(None, "idp_sign")]}, {"kind": "attribute_authority", "keys": [{"use": None, "certs": None}]}],
-            [{"kind": role, "keys": [{"use": "encryption", "certs": None}, kd("signing", "idp_sign")]}],
-            [{"kind": role, "keys": [kd("encryption", "idp_enc")]}],
-            [{"kind": role, "keys": []}],
-            [{"kind": "pdp", "keys": [kd(None, "idp_sign2")]}, {"kind": role, "keys": [kd("signing", "idp_sign", "idp_enc")]},
-             {"kind": "authn_authority", "keys": [kd("encryption", "member2")]}],
-        ]
-        for roles in shapes:
-            md = {"configured": True, "entities": [{"id": e_id, "roles": roles}]}
-            for only in (True, False, None):
-                for signer in ("idp_sign", "idp_sign2", "idp_enc", "attacker"):
-                    for ki in ({"certs": [], "rsa": None}, {"certs": [signer], "rsa": None}, {"certs": ["member2", signer], "rsa": None}):
-                        yield {"kind": kind, "md": md, "only_md": only, "issuer": e_id, "signer": signer, "keyinfo": ki}
-    # 5. random metadata shapes
-    n_md, per = (40, 12) if tier == "quick" else (400, 20)
+        for c in directed(kind, quick):
+            yield c
+    # 6. metadata reloaded with a source dropped
+    for kind in KINDS:
+        for c in reload_cases(kind):
+            yield c
+    # 7. random metadata shapes
+    n_md, per = (40, 12) if quick else (400, 20)
     for c in random_cases(rng, n_md, per):
         yield c
 
@@ -371,9 +507,10 @@ def gen_cases(rng, tier):
 # ------------------------------------------------------------------ receivers
 
 
-def _receiver(kind, md, only_md):
+def _receiver(kind, md, only_md, stale=None):
     sp_side = kind in SP_RECEIVES
-    key = (sp_side, kind if sp_side and kind in ("response", "assertion") else "", json.dumps(md, sort_keys=True), only_md)
+    group = "response" if kind == "response" else "assertion" if kind in ASSERTION_LIKE else ""
+    key = (sp_side, group, json.dumps(md, sort_keys=True), only_md, json.dumps(stale, sort_keys=True))
     if key in _state:
         return _state[key]
     if len(_state) > 64:
@@ -383,21 +520,26 @@ def _receiver(kind, md, only_md):
         extra["only_use_keys_in_metadata"] = only_md
     if sp_side:
         spx = {}
-        if kind == "response":
+        if group == "response":
             spx = {"want_response_signed": True, "want_assertions_signed": False}
-        elif kind == "assertion":
+        elif group == "assertion":
             spx = {"want_response_signed": False, "want_assertions_signed": True}
-        conf = S.sp_config(sp=spx, **extra)
-        mk = S.make_sp
+        conf = S.sp_config(sp=spx, **extra)   # own key: sp; decryption key: sp_enc1
+        make = S.make_sp
     else:
-        conf = S.idp_config(idp={"want_authn_requests_signed": True}, key_file=S.key_path("sp"), cert_file=S.cert_path("sp"), **extra)
-        mk = S.make_idp
+        conf = S.idp_config(idp={"want_authn_requests_signed": True}, key_file=S.key_path(OWN), cert_file=S.cert_path(OWN), **extra)
+        make = S.make_idp
     if md["configured"]:
-        conf["metadata"] = {"inline": [md_xml(md)]}
+        conf["metadata"] = {"inline": [md_xml(md)] + ([md_xml(stale)] if stale else [])}
     else:
         del conf["metadata"]
-    _state[key] = mk(conf)
-    return _state[key]
+    rcv = make(conf)
+    if stale:
+        # the new configuration lists the first source only
+        if not rcv.reload_metadata({"inline": [md_xml(md)]}):
+            raise RuntimeError("harness: reload_metadata did not succeed")
+    _state[key] = rcv
+    return rcv
 
 
 # ------------------------------------------------------------------ message construction (the sender / attacker side)
@@ -420,7 +562,7 @@ def _skeleton(kind):
 
     idp, sp = _tools()
     with S.clock(S.NOW0):
-        if kind in ("response", "assertion"):
+        if kind == "response" or kind in ASSERTION_LIKE:
             nid = saml.NameID(text="subject-1", format=saml.NAMEID_FORMAT_TRANSIENT)
             msg = idp.create_authn_response({"uid": ["u1"]}, "id-req-1", S.SP_ACS_POST, S.SP_ID, name_id=nid,
                                             authn={"class_ref": INTERNETPROTOCOLPASSWORD, "authn_auth": "x"},
@@ -428,8 +570,13 @@ def _skeleton(kind):
         elif kind in ("authn_post", "redirect"):
             dest = S.IDP_SSO_POST if kind == "authn_post" else S.IDP_SSO_REDIRECT
             _, msg = sp.create_authn_request(dest, binding=S.BINDING_POST, sign=False)
+        elif kind == "logout_resp_post":
+            msg = samlp.LogoutResponse(id="id-logout-resp-1", version="2.0", issue_instant=S.fmt_time(S.NOW0),
+                                       destination=S.SP_SLO_POST, in_response_to="id-logout-req-1",
+                                       issuer=saml.Issuer(text=E_IDP, format=saml.NAMEID_FORMAT_ENTITY),
+                                       status=samlp.Status(status_code=samlp.StatusCode(value=samlp.STATUS_SUCCESS)))
         else:
-            dest = S.SP_SLO_POST if kind == "logout_post" else S.SP_SLO_SOAP
+            dest = {"logout_post": S.SP_SLO_POST, "logout_soap": S.SP_SLO_SOAP, "logout_redirect": S.IDP_SLO_REDIRECT}[kind]
             msg = samlp.LogoutRequest(id="id-logout-1", version="2.0", issue_instant=S.fmt_time(S.NOW0), destination=dest,
                                       issuer=saml.Issuer(text=E_IDP, format=saml.NAMEID_FORMAT_ENTITY),
                                       name_id=saml.NameID(text="subject-1", format=saml.NAMEID_FORMAT_TRANSIENT),
@@ -456,7 +603,7 @@ def _key_info(ki):
     if ki["rsa"]:
         n, e = _rsa_numbers(ki["rsa"])
         k.key_value = [ds.KeyValue(rsa_key_value=ds.RSAKeyValue(modulus=ds.Modulus(text=n), exponent=ds.Exponent(text=e)))]
-    k.x509_data = [ds.X509Data(x509_certificate=ds.X509Certificate(text=S.cert_b64(c))) for c in ki["certs"]]
+    k.x509_data = [ds.X509Data(x509_certificate=ds.X509Certificate(text=cert_text(c))) for c in ki["certs"]]
     return k
 
 
@@ -483,6 +630,91 @@ def _sign_enveloped(msg, target, signer, ki):
     return signed
 
 
+def _template(target, ki, n=None):
+    from saml2.sigver import pre_signature_part
+
+    sig = pre_signature_part(target.id, None, n)
+    sig.key_info = _key_info(ki)
+    target.signature = sig
+
+
+def _sign_text(text, target, signer):
+    """fill the signature template of `target` inside the serialised document `text` with `signer`'s key"""
+    import re
+    from saml2 import class_name
+
+    idp, _ = _tools()
+    signed = idp.sec.sign_statement(text, node_name=class_name(target), key_file=S.key_path(signer or "attacker"),
+                                    node_id=target.id)
+    if signer is None:
+        # corrupt the SignatureValue that follows the Reference to this element
+        signed = re.sub(r'(URI="#%s".*?<[\w.-]*:?SignatureValue[^>]*>)([^<]+)' % re.escape(target.id),
+                        lambda m: m.group(1) + _corrupt_b64(m.group(2)), signed, count=1, flags=re.S)
+    return signed
+
+
+def _xpath(*names):
+    return "".join('/*[local-name()="%s"]' % n for n in names)
+
+
+def _encrypt(text, *path):
+    """encrypt the element at `path` for the SP's encryption key sp_enc1"""
+    from saml2.sigver import pre_encryption_part
+
+    idp, _ = _tools()
+    return idp.sec.encrypt_assertion(text, S.cert_path("sp_enc1"), pre_encryption_part(), node_xpath=_xpath(*path))
+
+
+def _build_assertion_like(case):
+    """Response documents for the assertion-borne kinds (the Response itself is unsigned)"""
+    from saml2 import saml
+
+    kind, issuer, signer, ki = case["kind"], case["issuer"], case["signer"], case["keyinfo"]
+    resp = _skeleton(kind)
+    a = resp.assertion[0] if isinstance(resp.assertion, list) else resp.assertion
+    if kind == "enc_assertion":
+        _set_issuer(resp, issuer)
+        _set_issuer(a, issuer)
+        _template(a, ki)
+        ea = saml.EncryptedAssertion()
+        ea.add_extension_element(a)
+        resp.assertion = []
+        resp.encrypted_assertion = [ea]
+        text = _sign_text(str(resp), a, signer)
+        return _encrypt(text, "Response", "EncryptedAssertion", "Assertion")
+    first = case["first"]
+    _set_issuer(resp, first["issuer"])
+    _set_issuer(a, first["issuer"])
+    b = copy.deepcopy(a)
+    b.id = "id-second-item-1"
+    _set_issuer(b, issuer)
+    _template(a, first["keyinfo"], 1)
+    _template(b, ki, 2)
+    if kind == "plain_plus_enc":
+        # a plain assertion of `first` and, next to it, an encrypted assertion `m`
+        ea = saml.EncryptedAssertion()
+        ea.add_extension_element(b)
+        resp.assertion = [a]
+        resp.encrypted_assertion = [ea]
+        text = _sign_text(str(resp), b, signer)
+        text = _encrypt(text, "Response", "EncryptedAssertion", "Assertion")
+        return _sign_text(text, a, first["signer"])
+    # advice assertion `m` inside the assertion of `first`: signed, (encrypted,) then covered by first's signature
+    b.authn_statement = []
+    a.advice = saml.Advice()
+    resp.assertion = a
+    if kind == "advice_enc":
+        ea = saml.EncryptedAssertion()
+        ea.add_extension_element(b)
+        a.advice.encrypted_assertion = [ea]
+    else:
+        a.advice.assertion = [b]
+    text = _sign_text(str(resp), b, signer)
+    if kind == "advice_enc":
+        text = _encrypt(text, "Response", "Assertion", "Advice", "EncryptedAssertion", "Assertion")
+    return _sign_text(text, a, first["signer"])
+
+
 def _set_issuer(obj, issuer):
     from saml2 import saml
 
@@ -495,6 +727,8 @@ def _set_issuer(obj, issuer):
 def build_message(case):
     """-> (call arguments for the receiver) for this case"""
     kind, issuer, signer, ki = case["kind"], case["issuer"], case["signer"], case["keyinfo"]
+    if kind == "enc_assertion" or kind in NESTED:
+        return {"xml": base64.b64encode(_build_assertion_like(case).encode("utf-8")).decode()}
     msg = _skeleton(kind)
     _set_issuer(msg, issuer)
     if kind in ("response", "assertion"):
@@ -506,7 +740,7 @@ def build_message(case):
         target = msg if kind == "response" else assertion
         xml = _sign_enveloped(msg, target, signer, ki)
         return {"xml": base64.b64encode(xml.encode("utf-8")).decode()}
-    if kind in ("authn_post", "logout_post"):
+    if kind in ("authn_post", "logout_post", "logout_resp_post"):
         xml = _sign_enveloped(msg, msg, signer, ki)
         return {"xml": base64.b64encode(xml.encode("utf-8")).decode()}
     if kind == "logout_soap":
@@ -540,7 +774,7 @@ def run_impl(case):
     from saml2 import SAMLError
 
     kind = case["kind"]
-    rcv = _receiver(kind, case["md"], case["only_md"])
+    rcv = _receiver(kind, case["md"], case["only_md"], case.get("stale"))
     m = build_message(case)
     del X.LOG[:]
     _rx["handed"] = []
@@ -548,9 +782,16 @@ def run_impl(case):
     accepted = False
     with S.clock(S.NOW0):
         try:
-            if kind in ("response", "assertion"):
+            if kind == "response" or kind in ASSERTION_LIKE:
                 r = rcv.parse_authn_request_response(m["xml"], S.BINDING_POST, {"id-req-1": "/"})
                 accepted = bool(r is not None and r.name_id is not None and r.name_id.text == "subject-1")
+            elif kind == "logout_resp_post":
+                r = rcv.parse_logout_request_response(m["xml"], S.BINDING_POST)
+                accepted = bool(r is not None and r.response is not None)
+            elif kind == "logout_redirect":
+                r = rcv.parse_logout_request(m["xml"], S.BINDING_REDIRECT, relay_state=m["relay_state"],
+                                             sigalg=m["sigalg"], signature=m["signature"])
+                accepted = bool(r is not None and r.message is not None)
             elif kind == "authn_post":
                 r = rcv.parse_authn_request(m["xml"], S.BINDING_POST)
                 accepted = bool(r is not None and r.message is not None)
@@ -584,11 +825,21 @@ def nontrivial(case, impl, lean):
 
 
 def finding_key(case, impl, lean):
-    """C03/keyless-keydescriptor-fallback (repaired by fix 57adca09, listed as `fixed`): option off, the issuer's
-    metadata DOES publish a signing certificate, one of its signing key descriptors carries no certificate, and
-    the embedded certificate was trusted.  Named only for exactly that input class."""
-    if lean.get("why") == "fallback-although-metadata-has-keys" and lean.get("keyless") is True \
-            and case["only_md"] is False and impl["accepted"]:
+    """Two repaired defects of one root cause (MetaData.certs raised KeyError, _check_signature read that as "no
+    keys" and trusted the embedded certificate although the issuer publishes signing certificates, option off):
+      C03/empty-certificate-fallback     (fix 2dbe22bb)  a signing key descriptor with an EMPTY X509Certificate
+      C03/keyless-keydescriptor-fallback (fix 57adca09)  a signing key descriptor without X509Data / certificate
+    Both are listed as `fixed`, so naming them suppresses nothing: a regression is a VIOLATION.  Named only for
+    exactly these input classes."""
+    if not (str(lean.get("why", "")).endswith("fallback-although-metadata-has-keys") and case["only_md"] is False
+            and impl["accepted"]):
+        return None
+    issuers = {(case["issuer"] or "").strip(), ((case.get("first") or {}).get("issuer") or "").strip()}
+    empty = any(c == "" for e in case["md"]["entities"] if e["id"] in issuers for r in e["roles"] for k in r["keys"]
+                if k.get("use") != "encryption" for c in (k["certs"] or []))
+    if empty:
+        return "C03/empty-certificate-fallback"
+    if lean.get("keyless") is True:
         return "C03/keyless-keydescriptor-fallback"
     return None
 
